@@ -244,6 +244,16 @@ package check
 //@   loop range:scopes exits-early-only-if [every-scope-of-the-level-is-visited] false
 //@   loop range:scopes step [every-scope-is-searched-and-its-sub-scopes-queued] hits("getLocVarMapsSymbols#1") == prev(hits("getLocVarMapsSymbols#1")) + 1 && len(tempScopes) == prev(len(tempScopes)) + len(scope.SubScopes)
 //@ end
+// C09: every file handed to a worker comes with a matcher OF ITS OWN (a Matcher keeps scratch state - scores, roles,
+// a lower-case buffer - and is "not designed for parallel use": two workers scoring on one would make scores, and what
+// survives the cuts, depend on goroutine scheduling)
+//@ func handleAllFilesSymbols
+//@   props C09
+//@   at call NewMatcher#0 before assert[first-round-matchers-are-made-for-the-query] streq(arg0, pattern)
+//@   at call NewMatcher#1 before assert[later-matchers-are-made-for-the-query] streq(arg0, pattern)
+//@   loop for:recvNum<handleFileLen step [a-file-handed-out-later-gets-a-fresh-matcher] hits("NewMatcher#1") == prev(hits("NewMatcher#1")) + 1 || hits("NewMatcher#1") == prev(hits("NewMatcher#1"))
+//@ end
+
 // member filter: in nested scopes only function members are offered; nothing else is dropped
 //@ func (*resultSorter).getVarmapsSymbols
 //@   props C19
@@ -345,7 +355,7 @@ package check
 // is read only when no text was given
 //@ func (*AllProject).analysisFirstLuaFile
 //@   props C02
-//@   at call ioutil.ReadFile#0 before assert[a-given-text-is-never-replaced-by-the-file-on-disk] content == nil
+//@   at call ReadFile#0 before assert[a-given-text-is-never-replaced-by-the-file-on-disk] content == nil
 //@   at call CreateParser#0 before assert[a-given-text-is-the-text-analysed] content != nil ==> arg0 == content
 //@ end
 
